@@ -130,6 +130,13 @@ func (idx *RoaringMetadataIndex) Add(node MetadataNode) error {
 	docID := node.ID()
 	metadata := node.Metadata()
 
+	// Validate every value before touching the index so that a failing Add
+	// leaves it unchanged (map iteration order is random, so a late failure
+	// would otherwise index an arbitrary subset of the fields).
+	if err := validateMetadata(metadata); err != nil {
+		return err
+	}
+
 	idx.allDocs.Add(docID)
 
 	for key, value := range metadata {
@@ -150,6 +157,19 @@ func (idx *RoaringMetadataIndex) Add(node MetadataNode) error {
 		}
 	}
 
+	return nil
+}
+
+// validateMetadata reports an error if any value has a type the metadata index
+// cannot store. It never modifies anything.
+func validateMetadata(metadata map[string]interface{}) error {
+	for key, value := range metadata {
+		switch value.(type) {
+		case int, int64, float64, string, bool:
+		default:
+			return fmt.Errorf("unsupported type for key %s: %T", key, value)
+		}
+	}
 	return nil
 }
 
